@@ -37,7 +37,7 @@ type Canon struct {
 	lenOnly       bool
 	plans         map[reflect.Type][]fieldPlan
 	buf           []byte
-	ptrs       map[ptrKey]int
+	ptrs          map[ptrKey]int
 }
 
 type ptrKey struct {
